@@ -277,7 +277,7 @@ func digestProblems(f string, p *dec.Package, st *digStats) []problem {
 
 func c03(run *ev.Run, tier string) {
 	n := ncases(100, 1200, tier)
-	run.Rule = "cases = generated payloads biased to digest-relevant shapes (empty payload, only dirs/symlinks, empty files, files straddling 512/4096/128Ki/1Mi boundaries, up to 5 MiB in thorough), every deb/rpm compression round-robin; every digest, checksum and size stored in the package is recomputed by the harness from the decoded shipped bytes (no nfpm code). Further workloads: several packages of one format built at the same time into slowly draining writers under GOMAXPROCS 1 and N (incl. 250-entry trees whose names all need escaping); good builds after builds that failed half-way (shared helper afterFailedBuilds); SOURCE_DATE_EPOCH exported (before 1970, different from the configured mtime); the nfpm binary rebuilding to a target that holds a longer file. non-trivial = payload with >=1 non-empty regular file; distinct = feature set"
+	run.Rule = "cases = generated payloads biased to digest-relevant shapes (empty payload, only dirs/symlinks, empty files, files straddling 512/4096/128Ki/1Mi boundaries, up to 5 MiB in thorough), every deb/rpm compression round-robin; every digest, checksum and size stored in the package is recomputed by the harness from the decoded shipped bytes (no nfpm code). Further workloads: several packages of one format built at the same time into slowly draining writers under GOMAXPROCS 1 and N (incl. 250-entry trees whose names all need escaping); good builds after builds that failed half-way (shared helper afterFailedBuilds); SOURCE_DATE_EPOCH exported (before 1970, different from the configured mtime); the nfpm binary rebuilding to a target that holds a longer file. non-trivial = payload with >=1 non-empty regular file; distinct = feature set; procfs sources (stat size 0), one source shipped to several destinations, payloads totalling zero bytes"
 	var st digStats
 	var rebuilt int64
 	forCases(run, caseCfg{
